@@ -186,6 +186,12 @@ func (d *Decoder) DecodeLength() (uint64, error) {
 		return 0, err
 	}
 	cLog(Yellow, "Slice Length: %v", length)
+	// The prefix comes from untrusted input and callers size their allocation
+	// with it. Every element of a sequence takes at least one octet, so a length
+	// beyond what is left to read can never be satisfied.
+	if length > uint64(d.buf.Len()) {
+		return 0, fmt.Errorf("sequence length %d exceeds the %d octets left to decode", length, d.buf.Len())
+	}
 	return length, nil
 }
 
